@@ -110,6 +110,7 @@ type inliner struct {
 	fileImps map[*ast.File]map[string]string // file -> import path -> local name
 	skip     map[*ast.CallExpr]bool
 	skipLower map[*ast.BinaryExpr]bool
+	keepSwitch *ast.SwitchStmt
 	exps     []*expansion // helpers inlined into the statement being processed
 	stats    *InlineStats
 	seq      *int
@@ -277,6 +278,9 @@ func (in *inliner) processList(list []ast.Stmt) []ast.Stmt {
 func (in *inliner) processStmt(s ast.Stmt) ([]ast.Stmt, ast.Stmt) {
 	switch x := s.(type) {
 	case *ast.LabeledStmt:
+		if sw, ok := x.Stmt.(*ast.SwitchStmt); ok {
+			in.keepSwitch = sw // a labelled switch may be the target of `break L`: never converted
+		}
 		pre, inner := in.processStmt(x.Stmt)
 		if inner == nil {
 			inner = &ast.EmptyStmt{Semicolon: x.Colon, Implicit: true}
@@ -295,6 +299,12 @@ func (in *inliner) processStmt(s ast.Stmt) ([]ast.Stmt, ast.Stmt) {
 			if len(pre) > 0 {
 				x.Else = &ast.BlockStmt{Lbrace: ei.Pos(), List: append(pre, e2), Rbrace: ei.End()}
 			}
+		}
+	}
+	if sw, ok := s.(*ast.SwitchStmt); ok && sw != in.keepSwitch {
+		if conv := in.switchToIf(sw); conv != nil {
+			in.done++
+			return in.processStmt(conv)
 		}
 	}
 	var pre []ast.Stmt
